@@ -147,7 +147,7 @@ def build(spec):
     if mg:
         host = fb[mg["host"][0]][mg["host"][1]]
         nm = mg.get("n", 2)
-        MB = [Bus(f"M{i}", n_customers=1) for i in range(nm)]
+        MB = [Bus(f"M{i}", n_customers=1, s_ref=s_ref) for i in range(nm)]
         for i in range(nm):
             ML.append(mk_line(f"ML{i}", host if i == 0 else MB[i - 1], MB[i]))
         CircuitBreaker("ME", ML[0])
